@@ -693,7 +693,7 @@ class SoftwareSwitchBase (object):
       self.port_stats[port_no].tx_bytes += len(packet.pack()) #FIXME: Expensive
       self._output_packet_physical(packet, port_no)
 
-    if out_port < OFPP_MAX:
+    if out_port <= OFPP_MAX:
       real_send(out_port)
     elif out_port == OFPP_IN_PORT:
       real_send(in_port, allow_in_port=True)
